@@ -365,9 +365,17 @@ fn child_multi(args: &[String]) {
         }
     };
     let _ = std::fs::write(&args[0], settings_line(&s));
+    // a compiler panic on one grammar (a C16 matter) must not hide the others: keep going
+    let mut panicked = false;
     for t in args[1].split(',') {
         let target = PathBuf::from(unhx(t));
-        finish_like_main(s.process_grammar(&target));
+        match std::panic::catch_unwind(std::panic::AssertUnwindSafe(|| s.process_grammar(&target))) {
+            Ok(r) => finish_like_main(r),
+            Err(_) => panicked = true,
+        }
+    }
+    if panicked {
+        std::process::exit(101);
     }
 }
 
